@@ -383,7 +383,10 @@ def gen_table_group(rng, g, day, num, yamlable, state, tags):
     for nm in rng.sample(TABLE_NAMES, rng.randrange(1, 5)):
         if nm not in names: names.append(nm)
     d0 = "2000-01-%02d" % day
-    conf = dict(num=num, date=(d0 + " 00:00:00") if rng.random() < 0.5 else [d0 + " 00:00:00", d0 + " 12:00:00"])
+    # a span inside the group's own day: the release times of a group are then strictly increasing (num <= 17: spacing
+    # >= 45 min) and the days of the groups are distinct, so the date sort of make_release has no ties at all and the
+    # row order of the table is fully determined ("particles in order" below does not lean on the stability of the sort)
+    conf = dict(num=num, date=(d0 + " 00:00:00") if num == 1 else [d0 + " 00:00:00", d0 + " 12:00:00"])
     specs = []
     for nm in names:
         while True:
@@ -431,6 +434,12 @@ def table_draws(kind, v0, num, out, log):
         mono = lambda z: bool(np.all(np.diff(np.array(out)[np.argsort(z, kind="stable")]) >= -1e-9))
         return next((z for z in cands if mono(z)), cands[0])
     return []
+
+
+def _span(day, num):
+    """release dates without ties: a span inside the day for more than one particle (strictly increasing release times),
+    so that the row order after the date sort of make_release does not depend on the stability of the sort"""
+    return day if num == 1 else [day + " 00:00:00", day + " 12:00:00"]
 
 
 def run_tables(ctx, mk):
@@ -645,18 +654,18 @@ def run_piece_history(ctx, mk):
         names = ctx.rng.sample(sorted(set(TABLE_NAMES)), len(fam))
         num = ctx.rng.choice([1, 2, 3, 5, 17])
         if mode == "group_attrs":
-            conf = dict(num=num, date="2000-01-01", location=[5, 60])
+            conf = dict(num=num, date=_span("2000-01-01", num), location=[5, 60])
             for nm, v in zip(names, fam):
                 (conf.setdefault("attrs", {}) if ctx.rng.random() < 0.35 else conf)[nm] = v
             configs = [conf if ctx.rng.random() < 0.5 else dict(groups=[conf])]
             layout = [[(0, nm, v0) for nm, v0 in zip(names, fam0)]]
         elif mode == "groups":
             if ctx.rng.random() < 0.5: names = [names[0]] * len(fam)      # the same attribute (e.g. depth) in every group
-            gs = [dict(num=num, date="2000-01-%02d" % (i + 1), location=[5, 60], **{nm: v}) for i, (nm, v) in enumerate(zip(names, fam))]
+            gs = [dict(num=num, date=_span("2000-01-%02d" % (i + 1), num), location=[5, 60], **{nm: v}) for i, (nm, v) in enumerate(zip(names, fam))]
             configs = [dict(groups=gs) if ctx.rng.random() < 0.7 else gs]
             layout = [[(i, nm, v0) for i, (nm, v0) in enumerate(zip(names, fam0))]]
         else:
-            configs = [dict(num=num, date="2000-01-01", location=[5, 60], **{nm: v}) for nm, v in zip(names, fam)]
+            configs = [dict(num=num, date=_span("2000-01-01", num), location=[5, 60], **{nm: v}) for nm, v in zip(names, fam)]
             layout = [[(0, nm, v0)] for nm, v0 in zip(names, fam0)]
         for target in range(len(fam0)):
             cdf = list(fam0[target]["cdf"])
